@@ -117,3 +117,13 @@ def run(chk):
     from . import guardrules
     ng_ = guardrules.check(chk, c, 'C17-G', ['__init__.check_version', '__init__.check_validation_level'])
     chk.floor('refusal predicates compared (C17-G)', ng_, 1)
+    chk.rule('C17-O', 'a parameter with default None is re-bound only where it was found to be None: an explicit argument is '
+                      'never replaced by a default or by the element\'s own value')
+    codelemmas.explicit_not_overwritten(chk, c, 'C17-O')
+
+    chk.rule('C17-D2', 'decision structure of the functions this property is anchored in: every effect statement (store, call, return, '
+                   'raise) runs under the same combinations of the function\'s elementary tests as in the reviewed tree, and none '
+                   'was deleted (reference/decisions.json; compared by meaning, rewritten functions are not compared)')
+    from . import guardrules as _gr
+    nd2_ = _gr.check_decisions(chk, c, 'C17-D2', lambda fq_: fq_.startswith(('__init__.set_default_v', '__init__.get_default_v', '__init__.check_v', '__init__.load_', '__init__.find_', '__init__._discover', 'parser._get_')))
+    chk.floor('functions compared with the decision reference (C17-D2)', nd2_, 1)
